@@ -74,6 +74,14 @@ OTHER_CHECKS = [
      "Wire.tla: abstract RTPS messages (header + submessages as records; 64 bit values named; sets as base + offsets) with EncLen, the octetsToNextHeader of every submessage kind as a function of its fields (bitmap words, inline QoS parameters with padding and sentinel, payload length), LenField (0 for a last submessage above 65535 octets) and the total message length. TLC enumerates every submessage kind with at most two fields off the default (sequence numbers up to 2^63-1, set offsets {}, {0}, {31}, {32}, {255}, ..., counts, flags, entity ids, inline QoS variants, payloads of 0..200 000 octets), alone, in front of a HEARTBEAT and behind an INFO_TS (3 7xx messages). For each the harness lets the library encode the message, compares every length field and the total with the specification, compares the bytes with an independent encoder, and decodes the library's bytes and the independent little- and big-endian encodings with the library, comparing every field with the abstract message.",
      "5.11, 6 C08", "Trusted: TLC, the independent encoder and the name->number mapping in harness/src/wire.rs. INFO_REPLY / PAD / vendor submessages only as received messages (C06).",
      "explicit TLA+ spec of the message structure and encoded lengths; TLC-enumerated messages encoded/decoded by the library and compared with the specification and an independent encoder"),
+    ("C11", "model_checking",
+     "KeyHash.tla defines the key of a type (key members in declaration order, nested ones included), its big-endian CDR serialization and SameInstance; TLC evaluates it on 666 (type, value) cases over 10 key types (single / multiple / nested / whole-structure / string keys, 16 and 17 octet keys). The harness computes the instance handle of real samples of the corresponding Rust types twice with different non-key members, compares all 132 k value pairs of a type (same handle iff same key) and, in the simulation, compares the handle returned by register_instance with the handle of the sample a remote reader presents and with the handle of the disposed instance (derived from the key-only payload).",
+     "6 C11", "Trusted: TLC; the Rust types of harness/src/keyhash.rs mirror MC_KeyHash.tla by hand. A user reader always derives the handle from the payload, so 'whether or not the key hash travels' is covered by construction (the built-in readers' case was the f7ef369 defect, found through C16).",
+     "explicit TLA+ spec of key extraction and identity; TLC-evaluated cases compared with the real handle computation and with writer/reader handles in the simulation"),
+    ("C12", "model_checking",
+     "KeyHash.tla: KeyHash(type, value) = big-endian CDR octets of the key members zero padded to 16 when MaxSize(type) <= 16, otherwise the MD5 digest of those octets (the specification gives the octets to digest). TLC computes octets, MaxSize and the decision for 666 cases (98 padded, 568 MD5; bounded keys of exactly 16 and 17 octets; unbounded string keys with short and long values); the harness compares the real instance handle and, end to end, the handle register_instance returns (= PID_KEY_HASH sent).",
+     "6 C12", "Known finding: the implementation decides on the actual instead of the maximum serialized size (short values of unbounded string keys are padded instead of hashed). 64 bit members (XCDR1 vs XCDR2 alignment is ambiguous in the property) and explicit member ids are outside the type language.",
+     "explicit TLA+ spec of the key hash (octets, maximum size, pad/MD5 decision) evaluated by TLC and compared with the implementation"),
     ("C14", "model_checking",
      "TimeConv.tla defines the wire conversion (fraction = ceil(ns*2^32/10^9) by long division on 16-bit limbs, back by Horner's rule, so that TLC's 32-bit integers suffice) and the saturating Add / Sub / New on normalized (sec, ns) values; TLC evaluates them on 31 413 boundary and sampled cases, checks RoundTrip, Normalized and Monotone on them and prints one CASE line per evaluation; the harness evaluates every conversion path (Duration<->rtps Duration, Duration<->wire Time, Time<->transport Time<->wire Time) and every operator (Time+Duration, Duration+-Duration, Time-Time, +=, ::new) of the code on each case, and sweeps ALL 10^9 nanosecond values through the code comparing with TimeConv!Frac and the round trip. TimeConvA.tla states the same functions on unbounded integers and Apalache proves RoundTripInv for every ns and ArithInv (normalized, monotone in every argument) for all operands of the full range.",
      "6 C14", "Trusted: TLC, Apalache/z3, the harness' case evaluation (harness/src/timeconv.rs). The limb definition (TLC) and the integer definition (Apalache) are linked through the implementation, not by a proof. Seconds are sampled at boundary values (they are copied by the conversions).",
